@@ -78,7 +78,7 @@ def configs(tier, rep=None):
     return out
 
 
-QUOTES = {"q4": "«»‹›", "qlist": ["<a>", "\"&", "", "''x"]}
+QUOTES = {"q4": "«»‹›", "qlist": ["<a>", "\"&", "", "''x"], "qempty": ["", "", "‹", ""]}
 
 
 def opt_value(k, v):
